@@ -22,6 +22,8 @@ def run(ctx: Ctx) -> None:
         scs.append(qf.gen_c13_history(rng, 'c13h-%d' % k, ctx.thorough))
     for k in range(ctx.pick(100, 1500)):
         scs.append(qf.gen_c10(rng, 'c13r-%d' % k, ctx.thorough))
+    for k in range(ctx.pick(6, 60)):
+        scs.append(qf.gen_c13_unwritable(rng, 'c13u-%d' % k, ctx.thorough))
     run_traces(ctx, OWN, scs)
     # the lookup part of the property: QU-then-QM, omitted questions, known answers, 1 s spacing (Trace_Lookup.tla, C13_* clauses)
     from props import c18, lookupfam as lf
